@@ -7,6 +7,7 @@ import (
 	"reflect"
 	"regexp"
 	"strings"
+	"sync"
 
 	"verif/harness/internal/fake"
 	"verif/harness/internal/gen"
@@ -367,16 +368,24 @@ func (p c10) Exec(c *run.Ctx, idx int, raw json.RawMessage) []run.Result {
 		pos = target.sz - 1
 	}
 	second := genErrorPayload(rand.New(rand.NewSource(int64(idx))))
+	var targetCall int64 = -1
+	var tmu sync.Mutex
 	for _, s := range r2.Services {
 		s.FaultFn = func(cl *fake.Call) *fake.Fault {
 			if cl.Service.Name == target.svc && cl.SvcCall == target.n {
+				tmu.Lock()
+				targetCall = cl.CallID
+				tmu.Unlock()
 				return &fake.Fault{Kind: kind, Pos: pos, Errs: sp.Errs}
 			}
 			return nil
 		}
 		if sp.Second && target.sz >= 2 {
 			s.ElemHook = func(ev *fake.Event, resp map[string]any) map[string]any {
-				if ev.Service == target.svc && ev.Pos == target.sz-1 && pos != target.sz-1 {
+				tmu.Lock()
+				isTarget := ev.CallID == targetCall
+				tmu.Unlock()
+				if isTarget && ev.Pos == ev.BatchSize-1 && pos != ev.BatchSize-1 {
 					l := make([]any, len(second))
 					for i := range second {
 						l[i] = second[i]
@@ -406,7 +415,24 @@ func (p c10) Exec(c *run.Ctx, idx int, raw json.RawMessage) []run.Result {
 	}
 	want := append([]map[string]any{}, sp.Errs...)
 	if tags["two-failing-elements-in-one-batch"] {
-		want = append(want, second...)
+		// only when the second payload really went out with the targeted call
+		injected := false
+		for _, e := range r2.Log.Since(0) {
+			tmu.Lock()
+			isTarget := e.CallID == targetCall
+			tmu.Unlock()
+			if isTarget && e.Pos == e.BatchSize-1 && e.BatchSize >= 2 && pos != e.BatchSize-1 {
+				injected = true
+			}
+		}
+		if injected {
+			want = append(want, second...)
+		}
+	}
+	if targetCall < 0 {
+		// the targeted call did not happen in this run (call numbering of concurrent calls differs from the dry run)
+		res.Verdict, res.Symptom = run.Inconclusive, "target-call-not-reached"
+		return []run.Result{res}
 	}
 	used := make([]bool, len(g.Errors))
 	for _, w := range want {
